@@ -150,18 +150,23 @@ func run(c Case) *pbt.Fail {
 			}
 			m := sim.Clone(n.Pending[at].M)
 			n.Pending = append(n.Pending[:at:at], n.Pending[at+1:]...)
-			root, err := mut.Decode(m.Data)
-			if err != nil {
-				break
+			if c.Mode == "header" {
+				// header sweep: the genuine in-flight message with one header field altered
+				m, lastWhat = malform(c, m, victim, n)
+			} else {
+				root, err := mut.Decode(m.Data)
+				if err != nil {
+					break
+				}
+				path, ok := mut.Shape(root, c.SweepNode, c.Kind, c.Arg)
+				if !ok {
+					lastWhat = "sweep|not-applicable"
+					n.Inject(string(m.From), m, victim.Name, false)
+					continue
+				}
+				m.Data = mut.Encode(root)
+				lastWhat = fmt.Sprintf("r%d/bc=%v|%s|%s", m.RoundNumber, m.Broadcast, mut.Generic(path), c.Kind)
 			}
-			path, ok := mut.Shape(root, c.SweepNode, c.Kind, c.Arg)
-			if !ok {
-				lastWhat = "sweep|not-applicable"
-				n.Inject(string(m.From), m, victim.Name, false)
-				continue
-			}
-			m.Data = mut.Encode(root)
-			lastWhat = fmt.Sprintf("r%d/bc=%v|%s|%s", m.RoundNumber, m.Broadcast, mut.Generic(path), c.Kind)
 			n.Tape.Use(victim.Name)
 			perr := guardCall("CanAccept", func() { _ = victim.H.CanAccept(m) })
 			if perr == nil {
@@ -458,6 +463,55 @@ func TestSweepPrefix(t *testing.T) {
 // absent or null.
 func TestSweepAbort(t *testing.T) {
 	sweep(t, []string{proto.CMPPresign}, []string{"absent", "null"}, 7, nil)
+}
+
+// TestSweepHeader replaces, for every message kind (protocol, round, broadcast or direct), the genuine in-flight message
+// by a copy with ONE header field altered, for every header alteration. Quick: the cheap protocols completely, and for
+// cmp keygen / sign the alterations that still pass the handler's admission test (empty recipient, flipped broadcast flag,
+// altered echo hash); thorough: everything.
+func TestSweepHeader(t *testing.T) {
+	rec := ev.Get()
+	i := 0
+	type plan struct {
+		protos []string
+		kinds  []string
+	}
+	plans := []plan{{cheapProtos, headerKinds}, {[]string{proto.CMPKeygen, proto.CMPSign}, []string{"to-empty", "flip-broadcast", "bv-garbage"}}}
+	if rec.Thorough() {
+		plans = []plan{{append(append([]string{}, cheapProtos...), cmpProtos...), headerKinds}}
+	}
+	for _, pl := range plans {
+		for _, p := range pl.protos {
+			c := Case{Setup: advrun.Setup{Proto: p, N: 2, T: 1, Seed: 1}, Mode: "header"}
+			msgs, err := baseline(c)
+			if err != nil {
+				t.Fatalf("%s: %v", p, err)
+			}
+			order := sessionOrder(c)
+			seen := map[string]bool{}
+			for ti, m := range msgs {
+				key := fmt.Sprintf("%d/%v", m.RoundNumber, m.Broadcast)
+				if m.RoundNumber == 0 || seen[key] {
+					continue
+				}
+				seen[key] = true
+				for _, k := range pl.kinds {
+					i++
+					if !rec.Mine(i) {
+						continue
+					}
+					cc := c
+					cc.Kind, cc.SweepTemplate, cc.Arg = k, ti+1, i
+					for vi, id := range order {
+						if m.IsFor(id) {
+							cc.Victim = vi
+						}
+					}
+					prop.One(t, cc)
+				}
+			}
+		}
+	}
 }
 
 func sweep(t *testing.T, protos, kinds []string, minRound int, filter func(*mut.Node) bool) {
